@@ -27,6 +27,7 @@ class ExecutorBase(FutureExecutor):
         """
         cloudpickle_register(ind=3)
         self._max_cores = max_cores
+        self._default_cores = 1
         self._future_queue: queue.Queue = queue.Queue()
         self._process: Optional[RaisingThread] = None
 
@@ -88,10 +89,13 @@ class ExecutorBase(FutureExecutor):
             Future: A Future representing the given call.
         """
         cores = resource_dict.get("cores", None)
+        if cores is None or (cores == 1 and self._default_cores >= 1):
+            # the executor-level number of cores is used for this call
+            cores = self._default_cores
         threads_per_core = resource_dict.get("threads_per_core", 1)
         if (
             self._max_cores is not None
-            and (1 if cores is None else cores) * threads_per_core > self._max_cores
+            and cores * threads_per_core > self._max_cores
         ):
             raise ValueError(
                 "The specified number of cores is larger than the available number of cores."
